@@ -107,6 +107,7 @@ func (ss *sess) installPop(sites []site) {
 		n = 300
 	}
 	kinds := []string{"rect", "circle", "poly"}
+	ss.ep.Discard("/pop")
 	for i := 0; i < n && !ss.dead; i++ {
 		var sh *shape
 		key := ss.key
